@@ -124,9 +124,13 @@ impl<R> Archive<R> {
         ) as usize;
 
         // Read the dictionary, chunk data offset and header hash
+        let header_tail_size = dictionary_size
+            .checked_add(8 + 64)
+            .filter(|size| size.checked_add(header::PRE_HEADER_SIZE).is_some())
+            .ok_or_else(|| ArchiveError::invalid_archive("invalid dictionary size"))?;
         header.extend_from_slice(
             &reader
-                .read_at(header::PRE_HEADER_SIZE as u64, dictionary_size + 8 + 64)
+                .read_at(header::PRE_HEADER_SIZE as u64, header_tail_size)
                 .await
                 .map_err(ArchiveError::ReaderError)?,
         );
